@@ -97,6 +97,8 @@ impl Property for C10 {
             "idle": rng.range(1, 3),
             // simulated duration of one EOF poll: a spinning follower, or seconds (slow machine / pausing writer)
             "poll_ms": *rng.pick(&[0u64, 0, 0, 0, 0, 0, 1, 1000, 3000, 60_000]),
+            // the descriptor handed over is not at byte 0 (e.g. inherited): --head must still start at the first byte
+            "pre_seek": if rng.chance(1, 10) { json!(rng.below(initial.len() + 1)) } else { J::Null },
         })
     }
 
@@ -115,6 +117,7 @@ impl Property for C10 {
         num_field(case, "cap", 8192, &mut out);
         num_field(case, "idle", 1, &mut out);
         num_field(case, "poll_ms", 0, &mut out);
+        set_field(case, "pre_seek", J::Null, &mut out);
         out
     }
 
@@ -142,6 +145,12 @@ impl Property for C10 {
         spec.read_mode = read_mode_from_json(case, "read_mode");
         spec.end_after_idle = Some(jusize(case, "idle", 1));
         spec.poll_cost_ns = jusize(case, "poll_ms", 0) as u64 * 1_000_000;
+        if let Some(pos) = case.get("pre_seek").and_then(|x| x.as_u64()) {
+            spec.pre_seek = Some(pos.min(initial.len() as u64));
+            // the harness' own positioning consumes one script step: keep it quiet
+            spec.steps.insert(1.min(spec.steps.len()), crate::seam::Step { land: 0, fault: crate::seam::Fault::None });
+            out.probe("descriptor_not_at_byte_0", (pos > 0) as u64);
+        }
         // a legal run needs at most one read per byte plus one per script step, EINTR and poll
         spec.event_budget = 2000 + 3 * whole.len() + 4 * spec.steps.len();
         let res = run_world(&spec);
